@@ -168,7 +168,8 @@ fn eval_builtin_incbin(
                 query.report,
                 query.args[2].span)?;
 
-            start + size
+            // A range whose end overflows certainly ends after EOF
+            start.checked_add(size).unwrap_or(usize::MAX)
         }
         else
         {
@@ -176,7 +177,9 @@ fn eval_builtin_incbin(
         }
     };
 
-    if bytes.len() == 0
+    // Including the whole of an empty file yields an empty value;
+    // explicit ranges are still checked against the (empty) contents
+    if bytes.len() == 0 && query.args.len() == 1
     {
         return Ok(expr::Value::make_integer(util::BigInt::from_bytes_be(&[])));
     }
@@ -341,7 +344,8 @@ fn eval_builtin_incstr(
                 query.report,
                 query.args[2].span)?;
 
-            start + size
+            // A range whose end overflows certainly ends after EOF
+            start.checked_add(size).unwrap_or(usize::MAX)
         }
         else
         {
@@ -349,7 +353,14 @@ fn eval_builtin_incstr(
         }
     };
 
-    if (start * bits_per_char) >= bigint_size
+    // Including the whole of an empty file yields an empty value;
+    // explicit ranges are still checked against the (empty) contents
+    if bigint_size == 0 && query.args.len() == 1
+    {
+        return Ok(expr::Value::make_integer(bigint));
+    }
+
+    if start.saturating_mul(bits_per_char) >= bigint_size
     {
         query.report.error_span(
             format!(
@@ -361,7 +372,7 @@ fn eval_builtin_incstr(
         return Err(());
     }
 
-    if (end * bits_per_char) > bigint_size
+    if end.saturating_mul(bits_per_char) > bigint_size
     {
         query.report.error_span(
             format!(
